@@ -48,13 +48,14 @@ THEOREMS = [
     "Pyval.bytes_roundtrip", "Pyval.bytes_roundtrip_lines", "Pyval.bytes_roundtrip_old_counterexample",
     "Pyval.display_eq_render", "Pyval.display_const_full", "Pyval.nul_dropped_old_counterexample",
     "Pyval.output_marked", "Pyval.exec_spec", "Pyval.wrap_marked", "Pyval.wrap_prefix_counterexample",
-    "Pyval.trimResult_prefix", "Pyval.cut_shows_written",
+    "Pyval.trimResult_prefix", "Pyval.cut_shows_written", "Pyval.line_budget_counterexample",
 ]
 PARTIAL = {
     "Pyval.render_groups_partial": "okTree excludes trees containing a one-element tuple (also as subscript index), an empty tuple as subscript index, a delegated node on which astor raised ('??'); the right-operand and huge-int exclusions are gone with b6b97a7 / 61018a8",
     "Pyval.derives_core": "same exclusions as render_groups_partial (it is its induction core)",
     "Pyval.tuple_kept_partial": "holds only for tuples of length != 1 (the colorizer never writes the trailing comma; the fix is not applied because the test-suite pins '(f)')",
     "Pyval.display_eq_render": "general lemma about result items: needs NUL-free item text; for str/bytes constants this is now a theorem (display_const_full); names, float text and astor text are NUL-free because Python source is",
+    "Pyval.line_budget_counterexample": "states what is NOT claimed: after a parenthesised operator charpos/lineno are under-counted, so a line may exceed linelen and a complete result may exceed maxlines lines; no theorem assumes a line budget",
     "Pyval.wrap_marked": "full for what the property says (cut => marked, complete => nothing lost); the stronger 'cut output is a prefix of the full text' is false (wrap_prefix_counterexample: the closing parenthesis of an open operator group is still written)",
     "Pyval.paren_table_old_exact": "HISTORICAL: describes the code before b6b97a7 (decisionOld)",
     "Pyval.paren_table_old_counterexample": "HISTORICAL: a-(b-c), a/(b*c), a-(b+c) before b6b97a7",
@@ -75,6 +76,7 @@ RULE = ("corpus first (every finding's input, every seeded change's shape: seede
         "trees. Non-trivial = the AST contains an operator node (UnaryOp/BinOp/BoolOp/Compare/IfExp) whose child is an operator node.")
 ASSUMPTIONS = [
     "expressions are colourized as pydoctor does it: the node has no expression parent (top level of a default, annotation, decorator, base, constant value)",
+    "regex criterion: a displayed pattern is right when CPython's re._parser gives it the same parse tree and flags as the source pattern (so (?P=n) shown as \\1, dropped (?#comments), 'ab|ac' shown as 'a[bc]' pass: same regex, other spelling); the call must keep its flags expression and its * / ** arguments",
     "re.compile(<constant>) goes through the regex colourizer (_colorize_ast_re, _colorize_re_pattern, _colorize_re_tree over pydoctor's vendored sre_parse36): NOT modelled; the regex stream checks it with the direct oracle only (same call, same flags expression, pattern constant equal or read as the same regex by CPython's re._parser; patterns CPython itself rejects are exempt); the other streams never generate re.compile",
     "_storeAttrValue is modelled (storeAttrValue/storeAll); that the builder calls it once per assignment statement of a documented module/class variable, in source order, is what the augassign stream checks",
     "what is delegated to astor outside comparison/conditional expressions over names and operators is an opaque leaf: the model is given astor's text; that the text is self-delimiting is checked only by the direct oracle (CPython re-parse)",
@@ -1520,12 +1522,15 @@ RE_PATTERNS = [
     r"(?s:.)x", r"a++", r"(?>ab)c", r"", r" ", r"a{1}", r"a{0,1}", r"a{1,}", r"a{0,}", r"[a-]", r"[-a]", r"[\-]",
     r"[a\]b]", r"[\^a]", r"[^^]", r"\$\^\*\+\?\{\}\[\]\|\(\)", r"(a)|b", r"((a))", r"(a(b)c)", r"()", r"(?:)",
     r"a|", r"|a", r"(|a)", r"foo|foobar", r"(foo|foobar)", r"^ab$|^ac$", r"ab|ac", r"xa|xb|xc", r"abc|abd|x",
-    r" (?!b)x| ", r"ab|a", r"(?:ab|a)c", r"a(b|bc)d", r"ab|cb", r"[\w.]+@[\w.]+", r"^\s*(\w+)\s*=\s*(.*?)\s*$", r"\d{1,3}(?:\.\d{1,3}){3}", r"[A-Fa-f0-9]{8}",
+    r" (?!b)x| ", r"ab|a", r"(?:ab|a)c", r"a(b|bc)d", r"ab|cb",
+    r"[a\-z]", r"[\w\-.]", r"[+\-*]", r"[a\-]", r"[\-a]", r"[a\-z0-9]", r"[^a\-z]", r"[\]\-a]", r"[\^\-\\]", r"[a\\-z]",
+    r"[\\]", r"[\]]", r"[\^]", r"[a\^]", r"[]a]", r"[^]a]", r"[a-z\-]", r"[--a]", r"[+--]", r"[\--a]", r"[\d\-x]", r"a\-b", r"[\w.]+@[\w.]+", r"^\s*(\w+)\s*=\s*(.*?)\s*$", r"\d{1,3}(?:\.\d{1,3}){3}", r"[A-Fa-f0-9]{8}",
     r"(?u)\w", r"(?a)\w", r"(?L)x", r"\u00e9", r"\U0001f600", r"\N{DIGIT ONE}", r"\0", r"\07", r"\101", r"[\0-\x1f]",
     r"[\b]", r"\A\Z\b\B", r"a{2}{3}", r"(?P<x>a)(?(x)b|c)", r"(?#comment)a", r"\'", r"'", r"''", r"\"", "a\nb", "a\\\nb",
 ]
 RE_FORMS = ["re.compile({p})", "re.compile({p}, re.I | re.M)", "re.compile({p}, flags=re.X)", "re.compile(pattern={p})",
-            "re.compile(flags=re.S, pattern={p})", "[re.compile({p}), 1]", "f(re.compile({p}))", "re.compile({p}).match"]
+            "re.compile(flags=re.S, pattern={p})", "[re.compile({p}), 1]", "f(re.compile({p}))", "re.compile({p}).match",
+            "re.compile({p}, **options)", "re.compile({p}, re.I, **o)", "re.compile({p}, *args)"]
 
 
 def _re_tree(pat):
@@ -1539,6 +1544,18 @@ def _re_tree(pat):
             return (repr(t), t.state.flags)
         except Exception as e:
             return "error:" + type(e).__name__
+
+
+def _re_signature(pat) -> str:
+    """which feature of the source pattern the display lost (coarse)"""
+    p = pat.decode("latin1") if isinstance(pat, bytes) else pat
+    if re.search(r"\(\?(?:[aiLmsux]+(?:-[imsx]+)?|-[imsx]+):", p):
+        return "regex:scoped-inline-flags-dropped"
+    if re.search(r"\[.*\\-", p):
+        return "regex:set-literal-hyphen-unescaped"
+    if "|" in p:
+        return "regex:alternation-common-prefix-ungrouped"
+    return "regex:pattern-means-something-else"
 
 
 def _re_calls(tree: ast.AST):
@@ -1566,7 +1583,7 @@ def regex_stream(ctx: Ctx, only: Optional[List[str]] = None, stream: str = "rege
     from pydoctor.epydoc.markup._pyval_repr import colorize_inline_pyval, colorize_pyval
     from pydoctor.node2stan import gettext
     pats: List[Any] = list(RE_PATTERNS)
-    atoms = ["a", "b", ".", r"\d", r"\w", "[ab]", "[^a-c]", "(a)", "(?:b)", "(?P<g>c)", "^", "$", r"\b", "|", "*", "+", "?",
+    atoms = ["a", "b", ".", r"\d", r"\w", "[ab]", "[^a-c]", r"[a\-c]", r"[\w\-]", r"[\]a]", r"[\\a]", r"[\^]", "(a)", "(?:b)", "(?P<g>c)", "^", "$", r"\b", "|", "*", "+", "?",
              "{2}", "{1,3}", "*?", r"\.", r"\\", "'", '"', " ", "é", r"\n", "(?i)", "(?=a)", "(?!b)", r"\1", "-", "]", "x{,2}"]
     for _ in range(100 if ctx.quick else 6000):
         pats.append("".join(ctx.rng.choice(atoms) for _ in range(ctx.rng.randint(1, 6))))
@@ -1621,6 +1638,11 @@ def regex_stream(ctx: Ctx, only: Optional[List[str]] = None, stream: str = "rege
                                 bad = ("regex:arguments", "the arguments do not bind")
                                 break
                             (pa, fa), (pb, fb) = ba, bb
+                            da = [norm_dump(k.value) for k in a.keywords if k.arg is None]
+                            db = [norm_dump(k.value) for k in b.keywords if k.arg is None]
+                            if da != db:
+                                bad = ("regex:double-star-arguments-dropped", "the ** arguments of the call differ")
+                                break
                             if (fa is None) != (fb is None) or (fa is not None and norm_dump(fa) != norm_dump(fb)):
                                 bad = ("regex:flags-changed", "the flags argument differs")
                                 break
@@ -1638,11 +1660,9 @@ def regex_stream(ctx: Ctx, only: Optional[List[str]] = None, stream: str = "rege
                                     # the source pattern is not a regex for this interpreter (pydoctor's vendored
                                     # 3.6 parser is more lenient): nothing to preserve
                                     ctx.count("regex:source-pattern-invalid-for-cpython-respelled")
-                                elif ta != tb:
+                                elif ta != tb:    # (tb may be an error: the shown pattern is not a regex)
                                     # which feature of the source pattern was lost?
-                                    sig = "regex:scoped-inline-flags-dropped" if re.search(r"\(\?[aiLmsux]*(-[imsx]+)?:", str(pa.value)) \
-                                        else "regex:alternation-common-prefix-ungrouped" if "|" in str(pa.value) \
-                                        else "regex:pattern-means-something-else"
+                                    sig = _re_signature(pa.value)
                                     bad = (sig, f"the pattern {pa.value!r} is shown as {pb.value!r}, which CPython's regex parser reads differently")
                                     break
                                 n_same += 1
@@ -1668,7 +1688,7 @@ def corpus_stream(ctx: Ctx) -> None:
         # findings (fixed and open)
         "a - (b - c)", "a / (b * c)", "a - (b + c)", "(a,)", "x[1,]", "f((1,))", "Tuple[()]", "(*a,)", "((a,),)",
         "1e999", "1e999j", "-1e999", "'\\x00'", "'a\\x00 b'", "'a\\x00\\nb'", 'b"it\'s"', "[b\"'\\nA\"]", HUGE_BAD, "x < " + HUGE_BAD,
-        "v[(a, b):c]", "f\"{lambda: a}\"", "f\"{ {a} }\"", "{k: {**(a in b)} for i in z}",
+        "v[(a, b):c]", "x[(a,):b]", "x[a:(b, c)]", "f\"{lambda: a}\"", "f\"{ {a} }\"", "{k: {**(a in b)} for i in z}",
         # seeded/C15-1: right operand of + or * of the same precedence level
         "2 * (7 // 2)", "a + (b - c)", "a + (b + c)", "A * (B // C)", "A * (B % C)", "A * (B @ C)", "a + (b - c) * d",
         # seeded/C15-r2-1: a tuple display that is itself subscripted
@@ -1695,7 +1715,11 @@ def corpus_stream(ctx: Ctx) -> None:
                                ("Read | Write", [["Flags & " + q, q]]), ("Read | Write", [[q, "Flags & " + q]]),
                                ("Read | Write", [["-" + q], ["Optional[%s]" % q], [q]])], stream="corpus-sequence")
     # regex findings
-    regex_stream(ctx, only=["re.compile('(?i:a)b')", "re.compile('(?s-i:.)x', re.M)", "re.compile('foo|foobar')",
+    regex_stream(ctx, only=["re.compile('a', **options)", "re.compile('a', re.I, **o)", "re.compile('[a\\-z]')",
+                            "re.compile('[\\w\\-.]')", "re.compile('[+\\-*]')",
+                            # same regex, different spelling: these must PASS (criterion: CPython's parse tree)
+                            "re.compile('(?P<n>x)(?P=n)')", "re.compile('a(?#comment)b')", "re.compile('ab|ac')",
+                            "re.compile('(?i:a)b')", "re.compile('(?s-i:.)x', re.M)", "re.compile('foo|foobar')",
                             "re.compile('^ab$|^ac$')", "re.compile(b'(foo|foobar)', re.I)", "re.compile(pattern='a|b')",
                             "re.compile(' (?!b)x{,2}| ')"], stream="corpus-regex")
     # seeded/C15-r2-2: plain assignment then augmented assignment
